@@ -448,9 +448,11 @@ class Simulator:
         )
 
         protocol = protocol.copy()
+        # In seconds, shifted the way the time points are: a Timedelta would round the
+        # start to nanoseconds and a requested point on a step boundary would miss it
         protocol.index = (
-            cast(pd.TimedeltaIndex, protocol.index) + pd.Timedelta(t_start, unit="s")
-        ).total_seconds()
+            cast(pd.TimedeltaIndex, protocol.index).total_seconds() + t_start
+        )
 
         time_points = np.array(time_points, dtype=float)
         if time_points_as_relative:
